@@ -197,6 +197,7 @@ func textValues(tier string) []*Opnd {
 	for _, f := range []int8{fZero, fInf} {
 		out = append(out, mkSpecial(f, false, 5, 0), mkSpecial(f, true, 40, 0), mkSpecial(f, true, 0, 0))
 	}
+	out = append(out, staleSpecials(7, 0)...) // the variable held 1, 1e-7, a 3-word value, 5e5 before
 	return out
 }
 
@@ -207,7 +208,7 @@ func textLayers(tier string) []Layer {
 	return []Layer{{
 		Name:   "T1-roundtrip",
 		Units:  (n + chunk - 1) / chunk,
-		Bounds: fmt.Sprintf("%d values (D(k) ∪ run-length strings ∪ W(3,S7) with low/interior zero words) × exponents (sub-word, multi-word, %%g thresholds, range ends) × ±, plus ±0, ±Inf; producers Text e/E/f/g/G/p (-1), b, Append, MarshalText, json.Marshal; consumers Parse(10), Parse(0), SetString, UnmarshalText, json.Unmarshal at receiver precision {MinPrec, MinPrec+1, x.prec, 0}", n),
+		Bounds: fmt.Sprintf("%d values (D(k) ∪ run-length strings ∪ W(3,S7) with low/interior zero words) × exponents (sub-word, multi-word, %%g thresholds, range ends) × ±, plus ±0, ±Inf (also in variables that held finite values before); producers Text e/E/f/g/G/p (-1), b, Append, MarshalText, json.Marshal; consumers Parse(10), Parse(0), SetString, UnmarshalText, json.Unmarshal at receiver precision {MinPrec, MinPrec+1, x.prec, 0}", n),
 		Run: func(c *Ctx, u int) {
 			if vals == nil {
 				vals = textValues(tier)
